@@ -335,3 +335,49 @@ def op_quality_stream(job):
 
 
 OPS = {k[3:]: v for k, v in list(globals().items()) if k.startswith('op_')}
+
+
+def op_batch_features(job):
+    """compute_batch_ranking on rows with the scoring stage replaced by a capture of the
+    constructed frame (mixed_rank_graph is looked up at call time)."""
+    from outrank.core_utils import BatchRankingSummary
+    out = []
+    orig = CR.mixed_rank_graph
+    captured = {}
+
+    def capture(df, args, pool, pbar):
+        captured['df'] = df
+        return BatchRankingSummary([], {})
+    CR.mixed_rank_graph = capture
+    try:
+        for item in job['items']:
+            L.reset_globals()
+            args = L.make_args(**item['args'])
+            captured.clear()
+            rows = [list(r) for r in item['rows']]
+            before = [list(r) for r in rows]
+            try:
+                CR.compute_batch_ranking(rows, set(item.get('numeric', [])), args, L.ScheduledPool(), item['columns'], CaptureLogger(Recorder({})), L.Pbar())
+            except Exception as e:  # noqa: BLE001
+                out.append({'error': repr(e)[:300]})
+                continue
+            df = captured.get('df')
+            if df is None:
+                out.append({'error': 'frame not captured'})
+                continue
+            cols = [str(c) for c in df.columns]
+            vals = {}
+            for c in df.columns:
+                col = df[c]
+                if getattr(col, 'ndim', 1) != 1:
+                    vals[str(c)] = 'DUPLICATE-COLUMN'
+                else:
+                    vals[str(c)] = [v if isinstance(v, str) else (None if v is None else str(v)) for v in col.tolist()]
+            out.append({'columns': cols, 'values': vals, 'nrows': int(df.shape[0]), 'input_untouched': rows == before,
+                        'index_ok': list(df.index) == list(range(len(rows)))})
+    finally:
+        CR.mixed_rank_graph = orig
+    return out
+
+
+OPS = {k[3:]: v for k, v in list(globals().items()) if k.startswith('op_')}
